@@ -60,6 +60,7 @@ template <class K> static Adapter* mk_kf(const Case& c) {
 template <class K> static Adapter* mk_kfb(const Case& c) {
   using Q = xenium::kirsch_bounded_kfifo_queue<typename K::T>;
   QSpec sp; sp.k = c.geti("k", 2); sp.empty_below = sp.k; long segs = c.geti("segs", 2); sp.cap = sp.k * segs; sp.full_min = (segs - 1) * sp.k + 1;
+  if (c.geti("relaxfull", 0)) sp.full_min = 0;   // classification aid: accept every 'full' answer
   return new QueueAdapter<Q, K, BOps<Q, K>>([](const Case& cc) { return new Q((uint64_t)cc.geti("k", 2), (uint64_t)cc.geti("segs", 2)); }, sp);
 }
 
